@@ -7,6 +7,7 @@ CONSTANTS
   ClassKinds <- KindsTab
   ClassX <- XTabRT
   ClassT <- TTabRT
+  ClassM <- MTabRT
   LowerOf <- LowerTab
   QNums <- QNumsOne
   QWords <- QWordsTwo
